@@ -1030,6 +1030,12 @@ func (vfs *MemFS) rename(oldpath, newpath string) (done bool, err error) {
 		return true, &os.LinkError{Op: op, Old: oldpath, New: newpath, Err: vfs.err.NoSuchDir}
 	}
 
+	if oPI.Path() == nPI.Path() || nChild == oChild {
+		// oldpath and newpath are the same entry or hard links to the same file : nothing to do,
+		// and nothing is asked of the directories (rename(2) answers before any permission check).
+		return true, nil
+	}
+
 	if !oParent.checkPermission(avfs.OpenWrite, vfs.User()) {
 		return true, &os.LinkError{Op: op, Old: oldpath, New: newpath, Err: vfs.err.PermDenied}
 	}
@@ -1047,10 +1053,6 @@ func (vfs *MemFS) rename(oldpath, newpath string) (done bool, err error) {
 
 	if nChild != nil && nChild != oChild && nChild != node(nParent) && !nParent.mayUnlink(nOwned, u) {
 		return true, &os.LinkError{Op: op, Old: oldpath, New: newpath, Err: vfs.err.OpNotPermitted}
-	}
-
-	if oPI.Path() == nPI.Path() {
-		return true, nil
 	}
 
 	switch oChild.(type) {
